@@ -107,6 +107,10 @@ InCtx(ctx, b) ==
   CASE ctx = 1 -> Prog(<<b, Log(I(5))>>)
     [] ctx = 2 -> Prog(<<Def("f", Fn(<< >>, b)), Log(Call(Var("f"), << >>)), Log(I(5))>>)
     [] ctx = 3 -> Prog(<<For(<<"x">>, "values", ListN(<<I(1), I(2)>>), Do(<<Log(Var("x")), b>>)), Log(I(5))>>)
+    \* 4: inside a loop over the lines of an input; 5: inside code handed to eval as text - an error of the
+    \* body travels through the loop / through eval unchanged
+    [] ctx = 4 -> Prog(<<For(<<"x">>, "values", N("input", "", Null, <<ListN(<<S("a"), S("b")>>)>>), Do(<<Log(Var("x")), b>>)), Log(I(5))>>)
+    [] ctx = 5 -> Prog(<<N("evalstr", "", Null, <<b>>), Log(I(5))>>)
 
 \* <<"e1", ctx, i1, i2, ic, if>>: one block, two statements
 E1Params(ctxs, CS, FS) == { <<"e1", ctx, i1, i2, ic, jf>> : ctx \in ctxs, i1 \in Idx(First1), i2 \in Idx(Second1),
@@ -133,6 +137,19 @@ E4Params(ctxs) == { <<"e4", ctx, j1, j2, jc, jf, oc, of>> :
 E4Build(p) == InCtx(p[2], Blk(<<Blk(<<InnerFirst[p[3]], InnerSecond[p[4]]>>, Catches[p[5]], Fins[p[6]])>>,
                               Catches[p[7]], Fins[p[8]]))
 
+\* <<"e6", k>>: an error passes through a call one of whose arguments is an object with a failing _str_ member
+\* (the stack-trace line of the call renders the arguments): the error and its handler stay the same
+StrCode == <<95, 115, 116, 114, 95>>
+E6Obj(body) == N("obj", "", Null, << <<StrCode, Fn(<<Param("a")>>, body)>> >>)
+E6Progs == << Prog(<<Def("t", E6Obj(ErrN(S("b")))), Def("f", Fn(<<Param("x")>>, ErrN(S("a")))),
+                     Blk(<<Log(Call(Var("f"), <<Arg(Var("t"))>>))>>, << <<S("a"), Log(I(8))>>, <<All, Log(I(9))>> >>, <<Log(I(6))>>)>>),
+              Prog(<<Def("t", E6Obj(Bin("/", I(1), I(0)))), Def("f", Fn(<<Param("x")>>, ErrN(S("a")))),
+                     Blk(<<Log(Call(Var("f"), <<Arg(Var("t"))>>))>>, << <<Lit(ERRORV), Log(I(7))>>, <<S("a"), Log(I(8))>> >>, << >>)>>),
+              Prog(<<Def("t", E6Obj(ErrN(I(1)))), Def("g", Fn(<<Param("x")>>, ErrN(I(2)))),
+                     Def("f", Fn(<<Param("x")>>, Call(Var("g"), <<Arg(Var("x"))>>))),
+                     Blk(<<Log(Call(Var("f"), <<Arg(Var("t"))>>))>>, << <<I(1), Log(I(7))>>, <<I(2), Log(I(8))>> >>, << >>)>>) >>
+E6Params == { <<"e6", k>> : k \in Idx(E6Progs) }
+
 \* <<"e5", form, e, a1, a2>>: the SAME block runs twice with a clause value that is a variable (a parameter
 \* in form 1, the loop variable in form 2, a reassigned variable in form 3): the clause value is evaluated
 \* afresh for every error that reaches the block
@@ -150,9 +167,9 @@ E5Build(p) ==
                                 Do(<<guard(blk("k")), Asg("k", E5Vals[p[5]]), Asg("n", Bin("+", Var("n"), I(1)))>>)),
                           Log(I(5))>>)
 
-ErrQuick == E5Params \cup E4Params({1}) \cup E1Params({1}, Idx(Catches), Idx(Fins)) \cup E1Params({2}, SmallCatch, SmallFin)
+ErrQuick == E5Params \cup E6Params \cup E1Params({4, 5}, SmallCatch \cup {4}, SmallFin) \cup E4Params({1}) \cup E1Params({1}, Idx(Catches), Idx(Fins)) \cup E1Params({2}, SmallCatch, SmallFin)
             \cup E3Params \cup { p \in E2Params({1}) : p[8] \in {1, 2} /\ p[10] = 1 }
-ErrThorough == E5Params \cup E4Params({1, 2, 3}) \cup E1Params({1, 2, 3}, Idx(Catches), Idx(Fins)) \cup E3Params \cup E2Params({1, 2, 3})
+ErrThorough == E5Params \cup E6Params \cup E1Params({4, 5}, Idx(Catches), Idx(Fins)) \cup E2Params({4, 5}) \cup E4Params({1, 2, 3}) \cup E1Params({1, 2, 3}, Idx(Catches), Idx(Fins)) \cup E3Params \cup E2Params({1, 2, 3})
 
 (* ---- C04: loops, exits, ladders, comprehensions ---- *)
 L123 == ListN(<<I(1), I(2), I(3)>>)
@@ -446,7 +463,7 @@ S6Params == { <<"s6", k>> : k \in Idx(S6Progs) }
 ScopeParams == S6Params \cup S1Params \cup S2Params \cup S3Params \cup S4Params \cup S5Params \cup A1Params \cup A2Params \cup A3Params
 
 Build(p) ==
-  CASE p[1] = "e5" -> E5Build(p) [] p[1] = "e4" -> E4Build(p) [] p[1] = "e1" -> E1Build(p) [] p[1] = "e2" -> E2Build(p) [] p[1] = "e3" -> E3Build(p)
+  CASE p[1] = "e6" -> E6Progs[p[2]] [] p[1] = "e5" -> E5Build(p) [] p[1] = "e4" -> E4Build(p) [] p[1] = "e1" -> E1Build(p) [] p[1] = "e2" -> E2Build(p) [] p[1] = "e3" -> E3Build(p)
     [] p[1] = "l1" -> L1Build(p) [] p[1] = "l0" -> L0Build(p) [] p[1] = "l2" -> L2Build(p)
     [] p[1] = "l3" -> L3Progs[p[2]] [] p[1] = "w1" -> W1Build(p) [] p[1] = "if" -> IfBuild(p)
     [] p[1] = "c2" -> C2Build(p) [] p[1] = "l4" -> L4Build(p) [] p[1] = "l5" -> L5Progs[p[2]]
